@@ -517,3 +517,103 @@ pub(crate) fn c14_t_slide_digits() {
     }
     vassert!(carry == 0, "slide: no weight lost above 2^256");
 }
+
+// ------------------------------------------------------------------------------------------------ point encoding
+pub(crate) static mut INV_ARG0: u64 = 0;
+pub(crate) static mut MULN: usize = 0;
+pub(crate) static mut MUL_A0: [u64; 2] = [0; 2];
+pub(crate) static mut MUL_B0: [u64; 2] = [0; 2];
+pub(crate) static mut ENC_ARG0: u64 = 0;
+pub(crate) static mut NEG_ARG0: u64 = 0;
+pub(crate) static mut NEG_RET: bool = false;
+#[cfg(kani)]
+pub(crate) fn invert_tag_rec(a: &Fe) -> Fe {
+    unsafe {
+        INV_ARG0 = a.0[0] as u64;
+    }
+    let mut r = Fe::ZERO;
+    r.0[0] = 1000 as _;
+    r
+}
+#[cfg(kani)]
+pub(crate) fn mul_tag_rec<'a>(a: &'a Fe, b: &Fe) -> Fe
+where
+    'a: 'a,
+{
+    let mut r = Fe::ZERO;
+    unsafe {
+        if MULN < 2 {
+            MUL_A0[MULN] = a.0[0] as u64;
+            MUL_B0[MULN] = b.0[0] as u64;
+        }
+        MULN += 1;
+        r.0[0] = (2000 + MULN) as _;
+    }
+    r
+}
+#[cfg(kani)]
+pub(crate) fn fe_to_bytes_tag_rec(a: &Fe) -> [u8; 32] {
+    unsafe {
+        ENC_ARG0 = a.0[0] as u64;
+    }
+    let o: [u8; 32] = kani::any();
+    kani::assume(o[31] & 0x80 == 0); // contract of Fe::to_bytes (C15): canonical, bit 255 clear
+    unsafe {
+        ENC_OUT = o;
+    }
+    o
+}
+pub(crate) static mut ENC_OUT: [u8; 32] = [0; 32];
+#[cfg(kani)]
+pub(crate) fn is_negative_tag_rec(a: &Fe) -> bool {
+    unsafe {
+        NEG_ARG0 = a.0[0] as u64;
+        NEG_RET
+    }
+}
+/// Ge::to_bytes / GePartial::to_bytes: the encoding is the canonical bytes of y/z with bit 255 replaced by the parity of x/z
+/// (field operations recorded and told apart by tags: x = 11, y = 12, z = 13, 1/z = 1000, products 2001, 2002).
+fn case_point_encoding(partial: bool) {
+    let neg: bool = any();
+    #[cfg(kani)]
+    unsafe {
+        NEG_RET = neg;
+    }
+    let (mut x, mut y, mut z) = (Fe::ZERO, Fe::ZERO, Fe::ZERO);
+    x.0[0] = 11 as _;
+    y.0[0] = 12 as _;
+    z.0[0] = 13 as _;
+    let out = if partial { GePartial { x, y, z }.to_bytes() } else { Ge { x, y, z, t: Fe::ZERO }.to_bytes() };
+    #[cfg(kani)]
+    unsafe {
+        vassert!(INV_ARG0 == 13, "point encoding: the inverse of Z is taken");
+        vassert!(MULN == 2 && MUL_A0[0] == 11 && MUL_B0[0] == 1000 && MUL_A0[1] == 12 && MUL_B0[1] == 1000, "point encoding: x = X/Z and y = Y/Z");
+        vassert!(ENC_ARG0 == 2002, "point encoding: the bytes are the encoding of y");
+        vassert!(NEG_ARG0 == 2001, "point encoding: the sign is the parity of x");
+        let mut i = 0;
+        while i < 31 {
+            vassert!(out[i] == ENC_OUT[i], "point encoding: bytes 0..31 are y's canonical bytes");
+            i += 1;
+        }
+        vassert!(out[31] == (ENC_OUT[31] | if neg { 0x80 } else { 0 }), "point encoding: bit 255 carries the parity of x, the rest of byte 31 is y's");
+    }
+    let _ = (out, neg);
+}
+#[cfg_attr(kani, kani::proof)]
+#[cfg_attr(kani, kani::unwind(34))]
+#[cfg_attr(kani, kani::stub(Fe::invert, invert_tag_rec))]
+#[cfg_attr(kani, kani::stub(<&Fe as core::ops::Mul<&Fe>>::mul, mul_tag_rec))]
+#[cfg_attr(kani, kani::stub(Fe::to_bytes, fe_to_bytes_tag_rec))]
+#[cfg_attr(kani, kani::stub(Fe::is_negative, is_negative_tag_rec))]
+pub(crate) fn c15_ge_to_bytes_layout() {
+    case_point_encoding(false);
+}
+#[cfg_attr(kani, kani::proof)]
+#[cfg_attr(kani, kani::unwind(34))]
+#[cfg_attr(kani, kani::stub(Fe::invert, invert_tag_rec))]
+#[cfg_attr(kani, kani::stub(<&Fe as core::ops::Mul<&Fe>>::mul, mul_tag_rec))]
+#[cfg_attr(kani, kani::stub(Fe::to_bytes, fe_to_bytes_tag_rec))]
+#[cfg_attr(kani, kani::stub(Fe::is_negative, is_negative_tag_rec))]
+pub(crate) fn c15_gepartial_to_bytes_layout() {
+    case_point_encoding(true);
+}
